@@ -38,6 +38,10 @@ CLAIMED = {
  'C09': dict(
   text="Coq theorems over Report.v, a model of simplified_json_from_root, report_all_failed_clauses_for_rules (all its match arms) and FileReport::combine: with distinct rule names every evaluated rule is in exactly one of compliant / not_applicable / not_compliant according to its status; the file status is FAIL iff not_compliant is non-empty, PASS iff it is empty and compliant is not, else SKIP (given the file record carries the fold of its rules, which is C02_file); combining the reports of several rules files is the union and its status again follows the FAIL>PASS>SKIP rule; every check listed under a rule is the image of a ClauseValueCheck record inside that rule's own subtree whose status is FAIL and carries its custom message; a FAIL rule is listed even with no displayable check; nothing is listed under a PASS or SKIP rule. Tie: the JSON the implementation prints (run_checks non-verbose) is compared inside Coq with Report.simplified applied to the record tree of the same evaluation (status, both name sets, the whole not_compliant tree with node kinds and custom messages). Monitor: the statement evaluated on the implementation's outputs alone, plus union-of-reports for 2..3 rules files through the CLI.",
   note="tie = hook eval_dump + run_checks JSON + CLI runs. Context strings and error-message wording are not modelled. The correspondence found that run_checks truncated reports over 8 KiB (fixed in /repo, recorded under C07)."),
+ 'C07': dict(
+  text="PARTIAL. Proved in Coq over Report.v/Cli.v: the console summary table lists exactly the rules the structured report lists as compliant / not_compliant / not_applicable (distinct names); SARIF carries one result per reported failing check (message_count = leaves + empty-block entries of the report tree); when every rules file parses the exit status is the same in the plain, JSON/YAML/SARIF and JUnit code paths; and the mixed case (a parse error together with a FAIL) is genuinely mode- and order-dependent (19 / 5 / last-non-zero), stated as a theorem. Report.v and Cli.v are tied to the code by the C09 and C06 correspondences. NOT provable here: that the bytes serde_json / serde_yaml / quick_xml emit are well-formed and that JSON and YAML denote the same data - this is observed by parsing every output back. Monitor: the statement's cross product on generated (rules, data): console summary with -S all/pass/fail/skip/none, -v, -p, -o json, -o yaml, --structured json/yaml/sarif/junit, stdin, --payload and run_checks (verbose and not): PASS/FAIL/SKIP rule sets, file status and exit code extracted from every rendering must agree; SARIF result count and JUnit marks are checked against the structured report.",
+  note="tie = C09 + C06 correspondences; python parsers of each rendering. Known finding (recorded, not repaired): validate with one unparsable and one failing rules file exits 19 (JSON/YAML/SARIF), 5 (JUnit) or the last non-zero code (plain) - the statement of C06 leaves this case at 'non-zero', C07's 'same exit code' does not hold there; repairing it means choosing a precedence, i.e. changing documented-by-behaviour exit codes. Fixed in /repo: run_checks truncation of reports over 8 KiB.",
+  technique="machine-checked proof in Coq over the report/exit-code models + cross-format differential on the real binary (parsing every output back)"),
 }
 
 NOT_CLAIMED = {}
